@@ -4,8 +4,9 @@
 
    fam = "merge":  two distinct settings s1, s2, each with a flag state and a config state, and --auto or not.
         flag \in {"absent", "given_default", "given_other"}  (given_default: passed with its default value; only
-              possible for valued flags), cfg \in {"unset", "set"} (set = a non-default value; for the switches that
-              --auto locks the config sets the opposite of the preset when --auto is on).
+              possible for valued flags), cfg \in {"unset", "set", "setdef"} (set = a non-default value; for the switches that
+              --auto locks the config sets the opposite of the preset when --auto is on; setdef = the file spells out the
+              default value, which must still lose against an explicit flag).
         The machine mirrors cli._parse_args + merge_cli_with_config: Parse records explicit flags, MergeField(s)
         applies the config value unless the flag is explicit or --auto locks the field.
         Effective(s) \in {"default", "flagval", "cfgval", "preset"} names where the value comes from.
@@ -23,7 +24,7 @@ Prio == <<"dot", "plain", "pyp_with">>
 
 MergePoints == {[s1 |-> a, f1 |-> fa, c1 |-> ca, s2 |-> b, f2 |-> fb, c2 |-> cb, auto |-> au] :
                   a \in Settings, b \in Settings, fa \in {"absent", "given_default", "given_other"},
-                  fb \in {"absent", "given_default", "given_other"}, ca \in {"unset", "set"}, cb \in {"unset", "set"}, au \in BOOLEAN}
+                  fb \in {"absent", "given_default", "given_other"}, ca \in {"unset", "set", "setdef"}, cb \in {"unset", "set", "setdef"}, au \in BOOLEAN}
 Init == /\ \/ /\ fam = "merge" /\ p \in {q \in MergePoints : q.s1 # q.s2 /\ q.f1 \in FlagStates(q.s1) /\ q.f2 \in FlagStates(q.s2)}
            \/ /\ fam = "locate" /\ p \in [0..2 -> SUBSET Kinds]
         /\ pc = "parse" /\ explicit = {} /\ eff = <<>> /\ chosen = <<>>
@@ -41,6 +42,7 @@ Parse == /\ fam = "merge" /\ pc = "parse"
 MergeOne(s, cur) == IF CfgOf(s) = "unset" THEN cur
                     ELSE IF s \in explicit THEN cur
                     ELSE IF p.auto /\ s \in AutoLocked /\ Mutant # "auto_not_locked" THEN cur
+                    ELSE IF CfgOf(s) = "setdef" THEN "default"          \* the config file spells out the default value
                     ELSE "cfgval"
 Merge == /\ fam = "merge" /\ pc = "merge"
          /\ eff' = [s \in {p.s1, p.s2} |-> MergeOne(s, eff[s])]
@@ -49,7 +51,7 @@ Merge == /\ fam = "merge" /\ pc = "merge"
 Effective(s) == IF FlagOf(s) = "given_other" THEN "flagval"
                 ELSE IF FlagOf(s) = "given_default" THEN "default"
                 ELSE IF p.auto /\ s \in AutoLocked THEN "preset"
-                ELSE IF CfgOf(s) = "set" THEN "cfgval" ELSE "default"
+                ELSE IF CfgOf(s) = "set" THEN "cfgval" ELSE "default"      \* "setdef": the file sets the default value itself
 Precedence == (fam = "merge" /\ pc = "done") => \A s \in {p.s1, p.s2} : eff[s] = Effective(s)
 
 \* ---------------- locate family ----------------
